@@ -166,3 +166,40 @@ fn c17_inbound_sequence() {
     }
     std::mem::forget(r);
 }
+
+
+// @gv props=C17 tier=quick required=yes fns=LruOutboundAliasResolver::resolve_topic_alias
+// @gv bounds="ONE resolution step from an arbitrary reachable cache state: configured maximum and server maximum any u16, cache holding L entries (any L up to the effective maximum; only the least recently used entry, with any legal alias, is materialised), a topic that is not cached"
+// @gv timeout=600 mem=4
+#[kani::proof]
+#[kani::unwind(6)]
+#[kani::stub(std::fmt::format, stub_format)]
+fn c17_lru_step_alias_in_range_any_size() {
+    let configured: u16 = kani::any();
+    kani::assume(configured >= 1);
+    let mut r = LruOutboundAliasResolver::new(configured);
+    let server_max: u16 = kani::any();
+    r.reset_for_new_connection(server_max);
+    let eff = if configured < server_max { configured } else { server_max };
+    let len: usize = kani::any();
+    // invariant of the resolver: the cache never holds more than the effective maximum, and every cached alias is legal
+    kani::assume(len <= eff as usize);
+    if len >= 1 {
+        let a0: u16 = kani::any();
+        kani::assume(a0 >= 1 && a0 <= eff);
+        r.cache.push("lru".to_string(), a0);
+        r.cache.gv_set_ghost(len - 1);
+    }
+    let res = r.resolve_topic_alias(&None, "new");
+    kani::cover!(len == eff as usize && eff > 0, "cache full: an alias is recycled");
+    kani::cover!(eff == 65535 && len == 65535, "largest legal alias table, full");
+    match res.alias {
+        None => assert!(eff == 0, "gv: aliases are used whenever the server allows them"),
+        Some(a) => {
+            assert!(a != 0, "gv: topic alias 0 is never sent");
+            assert!(a <= eff, "gv: no alias above the server's Topic Alias Maximum is ever sent");
+            assert!(!res.skip_topic, "gv: a topic that is not bound on this connection is sent in full");
+        }
+    }
+    std::mem::forget(r);
+}
